@@ -76,6 +76,7 @@ type Obligation struct {
 	Anc     map[int]bool
 	GhostRet map[string]string // ghost result witnesses (terms) at this return site
 	queryFile string
+	GlobalWrite bool // frame obligation whose written location is rooted in a package-level variable
 }
 
 type loopCtx struct {
@@ -255,6 +256,23 @@ func (fv *FuncVerifier) oblige(st *State, kind, text, goal string) {
 	if fv.curPos.IsValid() {
 		p := fv.pkg.Fset.Position(fv.curPos)
 		o.Pos = fmt.Sprintf("%s:%d", p.Filename, p.Line)
+	}
+	if kind == "frame" {
+		// a write whose target is rooted in a package-level variable can never be a write to a fresh object
+		root := text
+		if i := strings.IndexAny(root, "[.( "); i >= 0 {
+			root = root[:i]
+		}
+		if v, ok := fv.pkg.Types.Scope().Lookup(root).(*types.Var); ok && v != nil && fv.findLocalByName(root, fv.curPos) == nil {
+			isParam := false
+			if sig, ok := fv.fnObj.Type().(*types.Signature); ok {
+				for i := 0; i < sig.Params().Len(); i++ {
+					isParam = isParam || sig.Params().At(i).Name() == root
+				}
+				isParam = isParam || (sig.Recv() != nil && sig.Recv().Name() == root)
+			}
+			o.GlobalWrite = !isParam
+		}
 	}
 	fv.obls = append(fv.obls, o)
 }
